@@ -1,4 +1,6 @@
 import Bardic.Extracted.UndoCap
+import Bardic.Extracted.EntryPoints
+import Bardic.Extracted.ErrorSites
 import Bardic.Engine.Api
 /-!
 # Theorems over tables re-extracted from /repo's source on every run
@@ -8,5 +10,25 @@ namespace Bardic
 /-- the only assignment to `undo_stack` in each engine is `deque(maxlen=undoCap)` -/
 theorem undoCap_extracted :
     Extracted.undoCapMain = [some undoCap] ∧ Extracted.undoCapBrowser = [some undoCap] := by decide
+
+/-- every CLI entry point that accepts a `.bard` file compiles through a file-based, include-resolving
+function (`compile_file`, `parse_file`, or the bundler, which itself uses `compile_file`); none
+compiles the file's bare text with `compile_string` / `parse` -/
+theorem entryPoints_resolve_includes :
+    Extracted.entryPoints.all (fun e =>
+      !e.2.contains "compile_string" && !e.2.contains "parse" &&
+      (e.2.contains "compile_file" || e.2.contains "parse_file" || e.2.contains "create_browser_bundle")) = true ∧
+    Extracted.entryPoints.length = 4 := by decide
+
+/-- the index expressions a diagnostic site may report: the 0-based index of the offending line in
+the combined text (`format_error` adds 1 and maps it through the line map, see `display_origin`) -/
+def indexNames : List String := ["i", "start_index", "line_idx", "line_num", "error_line", "start_index+j"]
+
+/-- **every `format_error` call site passes the 0-based index of the construct's line, unshifted**,
+and so does every call that forwards a line index to a reporting function -/
+theorem errorSites_unshifted :
+    Extracted.errorSites.all (fun s => s.2.2.2.2 == 0 && indexNames.contains s.2.2.2.1) = true ∧
+    Extracted.lineForwards.all (fun s => s.2.2.2.2.2 == 0 && indexNames.contains s.2.2.2.2.1) = true := by
+  decide
 
 end Bardic
